@@ -420,7 +420,9 @@ def build():
         ('done', '''forall|i: int| 0 <= i < it.index@ ==> ({ let d = *(#[trigger] it.seq()[i]).0; let r = root(rewrite@, rewrite@[d]);
                     slot(self_.witness@, r).is_some() ==> slot(self_.witness@, d) == slot(self_.witness@, r) })'''),
     ])
-    rn.before('let r = canon.resolve(&rewrite);', '''let ghost w_b = self_.witness@; let ghost k_ = it.index@ as int; proof {
+    lo_ = rn._loop_open('for (dup, canon) in it: rewrite.iter()')
+    rn.body = rn.body[:lo_ + 1] + ' let ghost w_b = self_.witness@; let ghost k_ = it.index@ as int; ' + rn.body[lo_ + 1:]
+    rn.before('let r = canon.resolve(&rewrite);', '''proof {
             assert(rewrite@.contains_key(*it.seq()[k_].0));
             assert(rw0.dom().contains(*dup));
             assert((root(rw0, rw0[*dup]).0 as int) < self.witness@.len());
